@@ -218,6 +218,13 @@ def _cfgs(tier):
                 if tier == "quick" and dims == (4,) and nt == 1:
                     continue
                 out.append((dims, nt, fwd, r2c, inplace, bf))
+    # axes of length 1 (slab / wire grids): a DFT no-op along that axis, but for r2c the *last* axis is the halved one whatever its
+    # length, so a plan must not renumber its axes
+    unit = [(3, 1), (1, 3), (2, 1, 3), (2, 3, 1)] if tier == "thorough" else [(3, 1), (2, 3, 1)]
+    for dims in unit:
+        for fwd, inplace, bf in ([(True, False, True), (False, True, False)] if tier == "quick" else itertools.product((True, False), repeat=3)):
+            for r2c in ((True,) if tier == "quick" else (True, False)):
+                out.append((dims, 2, fwd, r2c, inplace, bf))
     return out
 
 
